@@ -1,5 +1,7 @@
 //! C08: word-level modular primitives and multi-word helpers, real code vs model/spec.
 use crate::rng::Rng;
+/// destinations are handed over DIRTY: every helper must define all the words of its result (a scratch buffer is reused after a wider value)
+const DIRTY: u64 = 0xDEAD_BEEF_0BAD_F00D;
 use crate::util::*;
 use heathcliff::util as hu;
 use heathcliff::Modulus;
@@ -108,38 +110,38 @@ pub fn run(out: &mut Out, thorough: bool, seed: u64, extra: &[String]) {
         let n = r.range(1, 8) as usize;
         let lc = format!("limbs{}", n);
         let a = limbs(&mut r, n); let b = limbs(&mut r, n);
-        out.case(&format!("add_uint {} {} {}", fl(&a), fl(&b), n), &lc, || { let mut res = vec![0u64; n]; let c = hu::add_uint(&a, &b, &mut res); format!("{}/{}", fl(&res), c) });
-        out.case(&format!("sub_uint {} {} {}", fl(&a), fl(&b), n), &lc, || { let mut res = vec![0u64; n]; let c = hu::sub_uint(&a, &b, &mut res); format!("{}/{}", fl(&res), c) });
+        out.case(&format!("add_uint {} {} {}", fl(&a), fl(&b), n), &lc, || { let mut res = vec![DIRTY; n]; let c = hu::add_uint(&a, &b, &mut res); format!("{}/{}", fl(&res), c) });
+        out.case(&format!("sub_uint {} {} {}", fl(&a), fl(&b), n), &lc, || { let mut res = vec![DIRTY; n]; let c = hu::sub_uint(&a, &b, &mut res); format!("{}/{}", fl(&res), c) });
         let w = r.word();
-        out.case(&format!("add_uint_u64 {} {} {}", fl(&a), w, n), &lc, || { let mut res = vec![0u64; n]; let c = hu::add_uint_u64(&a, w, &mut res); format!("{}/{}", fl(&res), c) });
-        out.case(&format!("sub_uint_u64 {} {} {}", fl(&a), w, n), &lc, || { let mut res = vec![0u64; n]; let c = hu::sub_uint_u64(&a, w, &mut res); format!("{}/{}", fl(&res), c) });
-        out.case(&format!("negate_uint {} {}", fl(&a), n), &lc, || { let mut res = vec![0u64; n]; hu::negate_uint(&a, &mut res); fl(&res) });
+        out.case(&format!("add_uint_u64 {} {} {}", fl(&a), w, n), &lc, || { let mut res = vec![DIRTY; n]; let c = hu::add_uint_u64(&a, w, &mut res); format!("{}/{}", fl(&res), c) });
+        out.case(&format!("sub_uint_u64 {} {} {}", fl(&a), w, n), &lc, || { let mut res = vec![DIRTY; n]; let c = hu::sub_uint_u64(&a, w, &mut res); format!("{}/{}", fl(&res), c) });
+        out.case(&format!("negate_uint {} {}", fl(&a), n), &lc, || { let mut res = vec![DIRTY; n]; hu::negate_uint(&a, &mut res); fl(&res) });
         // products: result length from 1 to len(a)+len(b)
         let nb = r.range(1, 8) as usize; let b2 = limbs(&mut r, nb);
-        let rn = r.range(1, (n + nb) as u64) as usize;
-        out.case(&format!("multiply_uint {} {} {}", fl(&a), fl(&b2), rn), &format!("mul{}x{}to{}", n, nb, rn), || { let mut res = vec![0u64; rn]; hu::multiply_uint(&a, &b2, &mut res); fl(&res) });
-        out.case(&format!("multiply_uint {} {} {}", fl(&a), fl(&b2), n + nb), &format!("mul{}x{}full", n, nb), || { let mut res = vec![0u64; n + nb]; hu::multiply_uint(&a, &b2, &mut res); fl(&res) });
-        let rn2 = r.range(1, (n + 1) as u64) as usize;
-        out.case(&format!("multiply_uint_u64 {} {} {}", fl(&a), w, rn2), &lc, || { let mut res = vec![0u64; rn2]; hu::multiply_uint_u64(&a, w, &mut res); fl(&res) });
+        let rn = r.range(1, (n + nb + 3) as u64) as usize;   // also longer than the full product
+        out.case(&format!("multiply_uint {} {} {}", fl(&a), fl(&b2), rn), &format!("mul{}x{}to{}", n, nb, rn), || { let mut res = vec![DIRTY; rn]; hu::multiply_uint(&a, &b2, &mut res); fl(&res) });
+        out.case(&format!("multiply_uint {} {} {}", fl(&a), fl(&b2), n + nb), &format!("mul{}x{}full", n, nb), || { let mut res = vec![DIRTY; n + nb]; hu::multiply_uint(&a, &b2, &mut res); fl(&res) });
+        let rn2 = r.range(1, (n + 4) as u64) as usize;   // up to three words beyond the product: they must be CLEARED
+        out.case(&format!("multiply_uint_u64 {} {} {}", fl(&a), w, rn2), &lc, || { let mut res = vec![DIRTY; rn2]; hu::multiply_uint_u64(&a, w, &mut res); fl(&res) });
         let s = r.below(64 * n as u64) as usize;
-        out.case(&format!("left_shift_uint {} {} {}", fl(&a), s, n), &lc, || { let mut res = vec![0u64; n]; hu::left_shift_uint(&a, s, n, &mut res); fl(&res) });
-        out.case(&format!("right_shift_uint {} {} {}", fl(&a), s, n), &lc, || { let mut res = vec![0u64; n]; hu::right_shift_uint(&a, s, n, &mut res); fl(&res) });
+        out.case(&format!("left_shift_uint {} {} {}", fl(&a), s, n), &lc, || { let mut res = vec![DIRTY; n]; hu::left_shift_uint(&a, s, n, &mut res); fl(&res) });
+        out.case(&format!("right_shift_uint {} {} {}", fl(&a), s, n), &lc, || { let mut res = vec![DIRTY; n]; hu::right_shift_uint(&a, s, n, &mut res); fl(&res) });
         let a3 = limbs(&mut r, 3); let s3 = r.below(192) as usize;
         // result buffers pre-filled with a poison pattern: a result must not depend on old content
         out.case(&format!("left_shift_u192 {} {}", fl(&a3), s3), "u192", || { let mut res = vec![0xDEADBEEFu64; 3]; hu::left_shift_u192(&a3, s3, &mut res); fl(&res) });
         out.case(&format!("right_shift_u192 {} {}", fl(&a3), s3), "u192", || { let mut res = vec![0xDEADBEEFu64; 3]; hu::right_shift_u192(&a3, s3, &mut res); fl(&res) });
-        out.case(&format!("half_round_up_uint {} {}", fl(&a), n), &lc, || { let mut res = vec![0u64; n]; hu::half_round_up_uint(&a, &mut res); fl(&res) });
+        out.case(&format!("half_round_up_uint {} {}", fl(&a), n), &lc, || { let mut res = vec![DIRTY; n]; hu::half_round_up_uint(&a, &mut res); fl(&res) });
         let bc = if r.chance(1, 3) { a.clone() } else { let nn = r.range(1, 8) as usize; limbs(&mut r, nn) };
         out.case(&format!("compare_uint {} {}", fl(&a), fl(&bc)), &lc, || match hu::compare_uint(&a, &bc) { std::cmp::Ordering::Less => "-1", std::cmp::Ordering::Equal => "0", _ => "1" }.to_string());
         let ops: Vec<u64> = (0..n).map(|_| if r.chance(1, 4) { r.word() } else { modulus(&mut r) }).collect();
-        out.case(&format!("multiply_many_u64 {} {}", fl(&ops), n), &lc, || { let mut res = vec![0u64; n]; hu::multiply_many_u64(&ops, &mut res); fl(&res) });
+        out.case(&format!("multiply_many_u64 {} {}", fl(&ops), n), &lc, || { let mut res = vec![DIRTY; n]; hu::multiply_many_u64(&ops, &mut res); fl(&res) });
         // modular multi-word: modulus with top limb non-zero, operands below it
         let mut mm = limbs(&mut r, n); if mm[n - 1] == 0 { mm[n - 1] = r.next() | 1; }
         let red = |v: &Vec<u64>| -> Vec<u64> { let mut q = vec![0u64; n]; let mut rem = vec![0u64; n]; hu::divide_uint(v, &mm, &mut q, &mut rem); rem };
         let (am, bm) = (red(&a), red(&b));
-        out.case(&format!("add_uint_mod {} {} {}", fl(&am), fl(&bm), fl(&mm)), &lc, || { let mut res = vec![0u64; n]; hu::add_uint_mod(&am, &bm, &mm, &mut res); fl(&res) });
-        out.case(&format!("sub_uint_mod {} {} {}", fl(&am), fl(&bm), fl(&mm)), &lc, || { let mut res = vec![0u64; n]; hu::sub_uint_mod(&am, &bm, &mm, &mut res); fl(&res) });
-        out.case(&format!("negate_uint_mod {} {}", fl(&am), fl(&mm)), &lc, || { let mut res = vec![0u64; n]; hu::negate_uint_mod(&am, &mm, &mut res); fl(&res) });
+        out.case(&format!("add_uint_mod {} {} {}", fl(&am), fl(&bm), fl(&mm)), &lc, || { let mut res = vec![DIRTY; n]; hu::add_uint_mod(&am, &bm, &mm, &mut res); fl(&res) });
+        out.case(&format!("sub_uint_mod {} {} {}", fl(&am), fl(&bm), fl(&mm)), &lc, || { let mut res = vec![DIRTY; n]; hu::sub_uint_mod(&am, &bm, &mm, &mut res); fl(&res) });
+        out.case(&format!("negate_uint_mod {} {}", fl(&am), fl(&mm)), &lc, || { let mut res = vec![DIRTY; n]; hu::negate_uint_mod(&am, &mm, &mut res); fl(&res) });
         // division: denominators of every significant length
         let dn = r.range(1, n as u64) as usize;
         let mut d = limbs(&mut r, dn); if d.iter().all(|&x| x == 0) { d[0] = 1 + r.below(1000); }
